@@ -47,6 +47,7 @@ type World struct {
 	baseMods map[*ssa.Function]map[string]bool
 	pcalls   map[*ssa.Function]map[int]bool
 	fnSrc   map[*ssa.Parameter]*fnValSrc
+	extraTypes map[string]types.Type // captured variables of the closure whose contract is being typed
 	// invariants every API call preserves; assumed across calls of caller-supplied callbacks
 	CallbackInv     []*Clause
 	CallbackProtect []string
@@ -344,6 +345,11 @@ func (w *World) MapHeaps(m *types.Map) (val, dom string) {
 	return
 }
 
+// VisitedHeap: per map type, the set of keys a range iterator has delivered so far.
+func (w *World) VisitedHeap(m *types.Map) string {
+	return w.Heap("M$"+w.typeKey(m)+"$visited", ArrSort(SInt, ArrSort(w.SortOf(m.Key()), SBool)))
+}
+
 func (w *World) SubRef(structKey, field string, p Term) Term {
 	fn := "sub$" + structKey + "$" + field
 	if !w.funSeen[fn] {
@@ -449,6 +455,8 @@ func (w *World) specSort(t string) Sort {
 		return ArrSort(SInt, SBool)
 	case "arr2":
 		return ArrSort(SInt, ArrSort(SInt, SInt))
+	case "setheap":
+		return ArrSort(SInt, ArrSort(SInt, SBool))
 	}
 	if strings.HasPrefix(t, "(") {
 		return Sort(t)
